@@ -1153,7 +1153,15 @@ func (d *Data) CopyPropertiesFrom(src datastore.DataService, fs storage.FilterSp
 
 	d.IndexedLabels = d2.IndexedLabels
 	d.CountLabels = d2.CountLabels
+	d.updateMu.Lock()
 	d.MaxDownresLevel = d2.MaxDownresLevel
+	if len(d.updates) < int(d.MaxDownresLevel)+1 {
+		// the table of per-scale update counters is indexed by scale
+		updates := make([]uint32, int(d.MaxDownresLevel)+1)
+		copy(updates, d.updates)
+		d.updates = updates
+	}
+	d.updateMu.Unlock()
 
 	return d.Data.CopyPropertiesFrom(d2.Data, fs)
 }
